@@ -45,10 +45,20 @@ fn options(path: &Path, cols: &[Flags], salt: [u8; 32]) -> Options {
 fn key_bytes(c: usize, k: usize, uniform: bool, rng_tag: u64) -> Vec<u8> {
 	let mut r = Rng::new(rng_tag ^ ((c as u64) << 32) ^ k as u64);
 	if uniform {
-		r.bytes(32)
+		let mut b = r.bytes(32);
+		if rng_tag & 1 == 1 {
+			// clustered: the keys of the column fall into two index pages (under the all-zero salt a uniform
+			// key is its own hash)
+			b[0] = (rng_tag >> 8) as u8;
+			b[1] = ((rng_tag >> 16) as u8 & 0xfe) | (k as u8 & 1);
+		}
+		b
 	} else {
+		// the first byte keeps the keys of one column distinct
 		let n = 1 + (r.below(40) as usize);
-		r.bytes(n)
+		let mut b = r.bytes(n);
+		b[0] = k as u8;
+		b
 	}
 }
 
@@ -95,14 +105,19 @@ pub fn main(args: &[String]) -> i32 {
 			dst.push(d);
 		}
 		let overwrite = rng.chance(1, 4);
-		let nkeys = rng.range(2, 8) as usize;
+		let nkeys = rng.range(2, 12) as usize;
+		let salt_zero = rng.chance(1, 3);
 		let salt: [u8; 32] = {
 			let b = rng.bytes(32);
 			let mut s = [0u8; 32];
-			s.copy_from_slice(&b);
+			if !salt_zero {
+				s.copy_from_slice(&b);
+			}
 			s
 		};
-		let tag = rng.next();
+		// bit 0 of the tag: clustered uniform keys (only under the zero salt)
+		let tag = (rng.next() & !1) | (salt_zero as u64);
+		*dist.entry(if salt_zero { "salt-zero-clustered-pages".to_string() } else { "salt-random".to_string() }).or_insert(0) += 1;
 		let sdir = scratch.join("src");
 		let ddir = scratch.join("dst");
 		let _ = std::fs::remove_dir_all(&scratch);
@@ -110,10 +125,14 @@ pub fn main(args: &[String]) -> i32 {
 		let mut content: Vec<Vec<(bool, u64, u64)>> = Vec::new();
 		{
 			let db = Db::open_or_create(&options(&sdir, &src, salt)).unwrap();
+			// keys that are inserted and removed again before the migration (their index slot is zeroed in place)
+			let mut removed: Vec<(usize, usize, u64)> = Vec::new();
 			for c in 0..ncols {
 				let mut col = Vec::new();
 				for k in 0..nkeys {
-					let present = rng.chance(4, 5);
+					let fate = rng.below(10);
+					let present = fate < 6;
+					let gone = fate >= 6 && fate < 9;
 					let len = match rng.below(8) {
 						0 => rng.range(33000, 70000),
 						1 => rng.range(4000, 9000),
@@ -124,7 +143,7 @@ pub fn main(args: &[String]) -> i32 {
 					let len = if src[c].rc || dst[c].rc { std::cmp::max(len, 8) } else { len };
 					let vtok = ((((c as u64) << 8 | k as u64) * 2 + rng.below(2) + 2) << 32) | len;
 					let cnt = if src[c].rc { rng.range(1, 4) } else { 1 };
-					if present {
+					if present || gone {
 						let key = key_bytes(c, k, src[c].uniform, tag);
 						let mut tx = vec![(c as u8, Operation::Set(key.clone(), value_bytes(vtok)))];
 						for _ in 1..cnt {
@@ -132,9 +151,25 @@ pub fn main(args: &[String]) -> i32 {
 						}
 						db.commit_changes(tx).unwrap();
 					}
+					if gone {
+						removed.push((c, k, cnt));
+						*dist.entry("keys-removed-before-migration".to_string()).or_insert(0) += 1;
+					}
 					col.push((present, vtok, cnt));
 				}
 				content.push(col);
+			}
+			if rng.chance(1, 2) {
+				for _ in 0..(ncols * nkeys + 2) {
+					db.process_commits().unwrap();
+				}
+				db.flush_logs().unwrap();
+				db.enact_logs().unwrap();
+			}
+			for (c, k, cnt) in removed {
+				let key = key_bytes(c, k, src[c].uniform, tag);
+				// one Dereference per reference (cnt is 1 in a column without counting: the value is removed)
+				db.commit_changes((0..cnt).map(|_| (c as u8, Operation::Dereference(key.clone()))).collect::<Vec<_>>()).unwrap();
 			}
 			while {
 				db.process_commits().unwrap();
@@ -143,7 +178,7 @@ pub fn main(args: &[String]) -> i32 {
 				db.clean_logs().unwrap();
 				false
 			} {}
-			for _ in 0..(ncols * nkeys + 2) {
+			for _ in 0..(2 * ncols * nkeys + 2) {
 				db.process_commits().unwrap();
 			}
 			db.flush_logs().unwrap();
